@@ -30,9 +30,24 @@ INDEX_OPS = {
     "mult_dim", "divide_dim", "resize_dim", "resize_dim_fold", "unroll_buffer", "expand_dim", "rearrange_dim",
     "stage_mem", "inline_window", "lift_alloc", "bind_expr", "inline", "transpose", "unroll_loop", "reuse_buffer",
     "delete_buffer", "sink_alloc", "divide_loop", "fission", "inline_assign", "extract_subproc", "simplify",
+    "autolift_alloc", "autofission", "resize_dim_fold",
 }
 
 TEMPLATES = [
+    # (6, placed first so that every worker layout reaches it) allocations nested in two loops whose accesses
+    # depend on both iterators: autolift_alloc in row / col mode with keep_dims, n_lifts = 1, 2
+    """
+@proc
+def foo(x: R[{A}, {B}], y: R[{A}, {B}]):
+    for i in seq(0, {A}):
+        for j in seq(0, {B}):
+            t: R[2]
+            t[0] = x[i, j]
+            t[1] = t[0] + 1.0
+            s: R
+            s = t[0] * t[1]
+            y[i, j] = s + t[1]
+""",
     # 0: 2-D scratch buffer, loop indices, read back
     """
 @proc
